@@ -257,7 +257,9 @@ func validateNonZero(v interface{}, name string) error {
 			return nil
 		}
 	default:
-		return validateNonEmpty(v, name)
+		// strings and collections are judged themselves, also when they are
+		// held behind a pointer
+		return validateNonEmpty(derefValue(v), name)
 	}
 
 	return ErrZeroValue
@@ -409,6 +411,12 @@ func validateRequired(v interface{}, name string) error {
 	if val.Kind() == reflect.Ptr && val.IsNil() {
 		return ErrRequired
 	}
+	// judge the value itself, also when it is held behind a pointer
+	v = derefValue(v)
+	if v == nil {
+		return ErrRequired
+	}
+	val = reflect.ValueOf(v)
 	if isInt(val.Kind()) || isUint(val.Kind()) || isFloat(val.Kind()) {
 		if err := validateNonZero(v, name); err != nil {
 			return ErrRequired
